@@ -3,10 +3,12 @@ from pyvc.api import *
 import C14 as c14
 
 PROP = 'C15'
-VARIANTS = ['size', 'init']
+VARIANTS = ['size', 'init', 'locks']
 REPLAYERS = {q: 'replayers/shared_values.py' for q in (
     'heap.BufferWrapper.__init__', 'sharedctypes.rebuild_ctype', 'sharedctypes._new_value', 'sharedctypes.RawValue',
-    'sharedctypes.RawArray')}
+    'sharedctypes.RawArray', 'sharedctypes.getvalue', 'sharedctypes.setvalue', 'sharedctypes.getraw', 'sharedctypes.setraw',
+    'sharedctypes.SynchronizedBase.__enter__', 'sharedctypes.SynchronizedBase.__exit__', 'sharedctypes.SynchronizedBase.__init__',
+    'sharedctypes.SynchronizedArray.__getitem__', 'sharedctypes.SynchronizedArray.__setitem__')}
 
 ASSUMPTIONS = [
     'ctypes: sizeof(t) >= 0 is the size of every instance of t, sizeof(t * n) == n * sizeof(t); t.from_buffer(buf) is an object '
@@ -26,6 +28,9 @@ _arr = z3.Function('ctypes_array_type', Val, z3.IntSort(), Val)
 
 
 def build(w, variant='size'):
+    if variant == 'locks':
+        import c15_locks
+        return c15_locks.build_locks(w, PROP)
     c14.build(w)
     malloc = [c for c in c14.build(w) if c.qualname == 'heap.Heap.malloc'][0]
     w.contracts['heap.Heap.malloc'] = malloc
@@ -221,8 +226,15 @@ MANIFEST_ENTRY = {
             'through the object; _new_value gives every object its own new wrapper of exactly sizeof(type) bytes -- with '
             'C14\'s "disjoint from every other live block" this is the isolation clause; RawValue and RawArray(n) zero-fill '
             'the whole object (sizeof(obj) bytes) before any initialiser runs, RawArray(initialiser) builds an array of exactly '
-            'len(initialiser) elements and initialises every one of them.',
-    'note': 'Two of the four clauses only (own storage; zero / initial value).  Cross-process visibility and atomicity of locked '
-            'read-modify-write under contention are interleaving properties of processes, out of reach of contracts; ctypes '
-            'itself (sizeof, from_buffer, memset, __init__) is an assumed contract.',
+            'len(initialiser) elements and initialises every one of them.  The lock-wrapped accessors (variant locks): the '
+            'property accessors get/set value and raw -- instantiated on every run from the exec template in the real source -- '
+            'and SynchronizedArray.__getitem__/__setitem__ touch the shared object only while the wrapper\'s own lock is held '
+            '(guarded-by obligations on every access), acquire it once and give it back on every way out; '
+            'SynchronizedBase.__enter__/__exit__ take and release that same lock; the constructor keeps the lock it is given, '
+            'makes a new one only when none is given, and binds acquire/release to it.',
+    'note': 'Own storage, zero / initial value, and the lock discipline of the accessors.  Cross-process visibility, and that the '
+            'lock discipline yields atomic read-modify-write under contention, are interleaving properties of processes, out of '
+            'reach of contracts; ctypes itself (sizeof, from_buffer, memset, __init__) and the RLock are assumed contracts.  The '
+            'accessor functions are not in the source as functions: the extraction instantiates the template string of '
+            'sharedctypes.py for the names its class bodies pass to make_property (listed in the evidence).',
 }
